@@ -198,6 +198,10 @@ def install_fetch_world(S, st, cfg, url, data, *, on_log):
     def h_dispatch(S, batch, cm, cb=None):
         # by contract C08: consumed or not is decided by the batch alone; may raise RpcError / what on_log raised
         S.oblige("O1.log_dispatch_gets_the_callers_on_log", cb is on_log, kind="pre")
+        # integrity first: log text and EXCEPTION batches of the fetched object reach the application (on_log, a raised
+        # RpcError) through this call, so it may only see a payload whose digest has been checked
+        if S.ghost.get("digest_ok") is not None:
+            S.oblige("O1.payload_is_interpreted_only_after_the_digest_check", S.ghost["digest_ok"], kind="pre", witness="log/exception batch dispatched")
         S.oblige("O1.log_dispatch_gets_a_batch_with_its_own_metadata", st.is_stream_pair((batch, cm)), kind="pre")
         k = S.choose(3, "dispatch")
         if k == 1:
@@ -270,6 +274,8 @@ def native_fetch_and_resolve(items, *, sha="match", expected_schema=SCHEMA_A, st
             problems.append("a payload the property forbids was handed to the caller")
         elif out[1][0].schema != expected_schema or out[1][0].num_rows != 3:
             problems.append("the returned batch is not the stream's data batch")
+    if sha in ("differs", "uppercase_of_match") and logs:
+        problems.append(f"{len(logs)} log message(s) of an object whose digest does not match reached on_log before the refusal")
     return out, problems, f"stream={items} sha={sha} schema_equal={expected_schema == stream_schema}"
 
 
@@ -289,7 +295,7 @@ def replay_fetch(inputs, ob):
     elif inputs.get("digest_matches") is False:
         sha = "differs"
     for items in shapes:
-        for s in {sha, "uppercase_of_match"} if sha != "none" else {sha}:
+        for s in {sha, "uppercase_of_match", "differs"} if sha != "none" else {sha}:
             for sch in ((SCHEMA_A, SCHEMA_A), (SCHEMA_A, SCHEMA_B)) if "data_with_loc" not in items else ((SCHEMA_A, SCHEMA_A),):
                 if sch[1] is SCHEMA_B:
                     continue  # _ipc_bytes writes column x; schema mismatch is exercised through expected_schema below
@@ -332,6 +338,7 @@ def fetch_and_resolve(S):
     injected = install_fetch_world(S, st, cfg, url, data, on_log=on_log)
     digest_ok = sb(True) if not has_sha else SBool(SHA_HEX(data.t) == expected_sha.t)
     S.inputs["digest_matches"] = digest_ok
+    S.ghost["digest_ok"] = digest_ok
 
     def first_idx(L):
         return as_slist(L.data_batches).get(0)[0].fields["idx"]
